@@ -17,6 +17,7 @@ pub mod c11;
 pub mod c12;
 pub mod c13;
 pub mod c14;
+pub mod c15;
 pub mod c16;
 pub mod c17;
 pub mod c10_conn;
@@ -45,6 +46,7 @@ pub const REGISTRY: &[Entry] = &[
     Entry { id: "C12", run: c12::run, replay: c12::replay },
     Entry { id: "C13", run: c13::run, replay: c13::replay },
     Entry { id: "C14", run: c14::run, replay: c14::replay },
+    Entry { id: "C15", run: c15::run, replay: c15::replay },
     Entry { id: "C16", run: c16::run, replay: c16::replay },
     Entry { id: "C17", run: c17::run, replay: c17::replay },
     Entry { id: "C18", run: c18::run, replay: c18::replay },
